@@ -1,0 +1,28 @@
+//go:build verif
+
+package pullapi
+
+import "time"
+
+// VerifSetNow points the idempotency cache at the harness clock.
+func (s *Server) VerifSetNow(now func() time.Time) { s.now = now }
+
+// VerifRecentLeaseOp is one entry of the recently-completed-lease cache.
+type VerifRecentLeaseOp struct {
+	LeaseID   string
+	Op        string
+	ExpiresAt time.Time
+}
+
+// VerifRecentLeaseOps returns the cache in list order (oldest first) without pruning it.
+func (s *Server) VerifRecentLeaseOps() []VerifRecentLeaseOp {
+	s.recentLeaseMu.Lock()
+	defer s.recentLeaseMu.Unlock()
+	var out []VerifRecentLeaseOp
+	for e := s.recentLeaseOrder.Front(); e != nil; e = e.Next() {
+		if it, ok := e.Value.(*recentLeaseOpEntry); ok && it != nil {
+			out = append(out, VerifRecentLeaseOp{it.key.leaseID, it.key.op, it.expiresAt})
+		}
+	}
+	return out
+}
